@@ -56,12 +56,12 @@ def algid_queries(prefix):
     f = ["rcgen::SignatureAlgorithm::write_alg_ident", "rcgen::SignatureAlgorithm::write_oids_sign_alg", "rcgen::SignatureAlgorithm::write_params"]
     names = ["RSA_SHA256", "RSA_SHA384", "RSA_SHA512", "ECDSA_P256_SHA256", "ECDSA_P384_SHA384", "ED25519", "RSA_PSS_SHA256"]
     return [Query(name=f"{prefix}_algid_{i}", body=f"    units::algid_table({i});", unwind=70, family="algid_table", functions=f,
-                  shape=f"{names[i]}: signature and SPKI AlgorithmIdentifier vs. the RFC 4055/5758/8410/5480 bytes") for i in range(7)]
+                  field_sens=64, shape=f"{names[i]}: signature and SPKI AlgorithmIdentifier vs. the RFC 4055/5758/8410/5480 bytes") for i in range(6)]
 
 
 def sign_wrap_queries(prefix, tier):
     f = ["rcgen::KeyPair::sign_der", "rcgen::KeyPair::sign (Remote arm)", "rcgen::SignatureAlgorithm::write_alg_ident"]
-    ns = (0, 5, 127) if tier == "quick" else (0, 1, 5, 125, 126, 127, 128, 129, 255, 256)
+    ns = (1, 5, 127) if tier == "quick" else (1, 2, 5, 125, 126, 127, 128, 129, 255, 256)
     qs = []
     for n in ns:
         qs.append(Query(name=f"{prefix}_sign_wrap_{n}", body=f"    units::sign_wrap::<{n}>(5, false);", unwind=n + 40, family="sign_wrap", functions=f,
